@@ -86,6 +86,7 @@ def check(prop, tier, seed):
     nscripts = 0
     nhash = 0
     bytid = {}
+    crashed = []
     with open(pairs_path, "w") as pf:
         for dom, scripts in doms.items():
             for s in scripts:
@@ -100,8 +101,20 @@ def check(prop, tier, seed):
                 tp = os.path.join(workdir, "%s.t%d" % (dom, p))
                 r = C.sh([C.BIN, dom, sp, tp], timeout=1500, env={"VERIF_PROC": str(p)})
                 if r.returncode != 0:
-                    raise C.ToolError("harness failed in determinism run (%s): %s" % (dom, r.stdout[-1500:]))
+                    # the code under test brought the process down while a script was replayed
+                    # (every script runs to completion in the other checks' single runs)
+                    cur = None
+                    try:
+                        cur = json.load(open(tp + ".cur"))
+                    except Exception:
+                        pass
+                    crashed.append({"tid": cur if cur is not None else scripts[0]["tid"], "line": 0, "p": "*",
+                                    "m": "the implementation crashed the process while a script was replayed (run %d of the %s scripts)" % (p, dom),
+                                    "d": "exit status %d; %s" % (r.returncode, r.stdout[-300:].replace("\n", " "))})
+                    break
                 traces.append(split_runs(tp, dom))
+            if crashed:
+                break
             nscripts += len(scripts)
             base = traces[0]
             if len(base) != 2 * len(scripts):
@@ -140,11 +153,12 @@ def check(prop, tier, seed):
            "extra": {"transcript_pairs": npairs, "scripts_with_hash_backed_storage_or_serialisation": nhash}}
     res["rule"] = "each script is run twice in one process and once more in every further process; every pair of transcripts is stepped through in lock-step by Det_Trace.tla; distinct_nontrivial = scripts that involve a hash-backed storage, a join or serialised output"
     out, seen = [], set()
+    viol = crashed + viol
     for v in viol:
         if v["tid"] in seen:
             continue
         seen.add(v["tid"])
-        ent = {"p": "C20", "tid": v["tid"], "m": v["m"], "d": v["d"][:2500], "line": v["line"]}
+        ent = {"p": v.get("p", "C20") if v.get("p") == "*" else "C20", "tid": v["tid"], "m": v["m"], "d": v["d"][:2500], "line": v["line"]}
         if len(out) < 6:
             ent["script"] = bytid.get(v["tid"], (None, None))[1]
         out.append(ent)
